@@ -79,8 +79,12 @@ class _FieldOfDressed:
             # Copy the python data (changes also dressed_new._xobject)
             dressed_new.__dict__.update(value.__dict__)
 
-            # Restore correct _xobject
-            dressed_new._xobject = getattr(container._xobject, self.name)
+            # Restore correct _xobject and dress again the nested fields from
+            # it (after the update they are those of `value`, which view the
+            # memory of `value` and not the copy made in the container)
+            dressed_new._reinit_from_xobject(
+                _xobject=getattr(container._xobject, self.name)
+            )
         else:
             self.content = None
             setattr(container._xobject, self.name, value)
